@@ -23,7 +23,7 @@ done
 for d in seeded/*/; do
   id=$(basename "$d" | cut -c1-3)
   case "$(basename $d)" in
-    C05-trio-pool-timeout-cancel-called) id="C16 C07";;
+    C05-trio-pool-timeout-cancel-called) continue;;  # neutralised by repo fix bcb0a82 (see its meta.json)
   esac
   timeout 1500 tools/mutant.sh "$d/patch.diff" $id | sed "s#MUTANT patch.diff#SEED $(basename $d)#" | cut -c1-200
 done
